@@ -10,7 +10,8 @@ if ! git -C $wt apply $d/patch.diff; then echo "PATCH DOES NOT APPLY"; git -C /r
 (cd $wt && PYTHONPATH=$wt timeout 600 /venv/bin/python $d/demo.py >/dev/null 2>&1); echo "demo with patch: rc=$?"
 (cd /repo && PYTHONPATH=/repo timeout 600 /venv/bin/python $d/demo.py >/dev/null 2>&1); echo "demo on /repo: rc=$?"
 for id in "$@"; do
-  out=$(cd /verif && EPGPY_REPO=$wt ./check $id 2>&1 | grep -v "^KNOWN")
+  out=$(cd /verif && VERIF_SCRATCH=${wt}_scratch EPGPY_REPO=$wt ./check $id 2>&1 | grep -v "^KNOWN")
   echo "$id: $(echo "$out" | grep -c '^VIOLATION') violation lines, $(echo "$out" | grep '^VIOLATION' | grep -vc 'no-failing-input-found') with failing input; last: $(echo "$out" | tail -1 | cut -c1-120)"
 done
 git -C /repo worktree remove --force $wt
+rm -rf ${wt}_scratch
